@@ -264,8 +264,10 @@ CtlRx ==
 Tick(d) ==
   /\ budget.ticks < MaxTicks
   /\ budget' = [budget EXCEPT !.ticks = @ + 1]
+  \* the age of a transmission only matters to the retransmission ("Resend"); it saturates above TimeOut
   /\ op2bar' = [op \in DOMAIN op2bar |->
-                  [op2bar[op] EXCEPT !.age = IF @ + d > TimeOut THEN TimeOut + 1 ELSE @ + d]]
+                  [op2bar[op] EXCEPT !.age = IF "Resend" \notin Dev THEN 0
+                                             ELSE IF @ + d > TimeOut THEN TimeOut + 1 ELSE @ + d]]
   /\ UNCHANGED <<conn, pending, bar2ops, mirror, swtab, c2s, s2c, want>>
   /\ Log("Tick", [d |-> d], Quiet)
 
@@ -349,29 +351,30 @@ TypeOK ==
   \* the switch never holds two entries with one (match, priority)
   /\ \A x, y \in swtab : Key(x) = Key(y) => x = y
 
-TrackedBarrierReply == conn = "up" /\ s2c # <<>> /\ Head(s2c).t = "brep" /\ Head(s2c).b \in DOMAIN bar2ops
+\* "this step is the controller reading the head of s2c" / "... and it is the reply to one of the mirror's barriers",
+\* stated on the real variables (no other action takes the head off s2c and leaves the connection up)
+CtlRxStep == conn = "up" /\ conn' = "up" /\ s2c # <<>> /\ s2c' = Tail(s2c)
+TrackedBarrierReply == CtlRxStep /\ Head(s2c).t = "brep" /\ Head(s2c).b \in DOMAIN bar2ops
 
 \* (1) when the reply to one of the mirror's barriers has been processed, the installed entries are what the
 \*     switch's table was when it answered that barrier - entry for entry, none twice
 SyncAtBarrier ==
-  [][(TrackedBarrierReply /\ last'.a = "CtlRx") =>
-       (BagOf(mirror') = Ind(Head(s2c).snap))]_vars
+  [][TrackedBarrierReply => (BagOf(mirror') = Ind(Head(s2c).snap))]_vars
 \* the same on (match, priority) only: what survives in the code as it is
 SyncAtBarrierKeys ==
-  [][(TrackedBarrierReply /\ last'.a = "CtlRx") =>
-       ({Key(x) : x \in SetOf(mirror')} = {Key(x) : x \in Head(s2c).snap})]_vars
+  [][TrackedBarrierReply => ({Key(x) : x \in SetOf(mirror')} = {Key(x) : x \in Head(s2c).snap})]_vars
 
 \* (2) an entry becomes installed only by the reply to a barrier that followed an ADD flow-mod for it
 InstalledOnlyAfterBarrier ==
   [][\A o \in Objs : BagOf(mirror')[o] > BagOf(mirror)[o] =>
-        /\ TrackedBarrierReply /\ last'.a = "CtlRx"
+        /\ TrackedBarrierReply
         /\ \E i \in DOMAIN bar2ops[Head(s2c).b] : bar2ops[Head(s2c).b][i] = Op("add", o)]_vars
 \* ... and an entry leaves the mirror only by a removal confirmed by its barrier, by a FLOW_REMOVED of the switch
 \* for its (match, priority), (by being replaced,) or with the whole entity
 RemovedOnlyWhenConfirmed ==
   [][\A o \in Objs : BagOf(mirror')[o] < BagOf(mirror)[o] =>
-        \/ last'.a = "Expire"
-        \/ /\ last'.a = "CtlRx" /\ conn = "up" /\ s2c # <<>>
+        \/ conn = "down" /\ conn' = "gone"
+        \/ /\ CtlRxStep
            /\ \/ Head(s2c).t = "frem" /\ \E x \in Head(s2c).fl : Key(x) = Key(o)
               \/ TrackedBarrierReply /\ \E i \in DOMAIN bar2ops[Head(s2c).b] :
                    LET op == bar2ops[Head(s2c).b][i] IN
@@ -403,8 +406,17 @@ DrainedAgreeKeys ==
 
 \* (5) a disconnected mirror does not write; a write always ends with a barrier
 WritesEndWithBarrier ==
-  (last.a \in {"Install", "RemoveStrict", "RemoveWild", "Up", "Join"} /\ last.exp.wr # <<>>) =>
-     last.exp.wr[Len(last.exp.wr)].t = "bar"
+  [][(c2s' # c2s /\ ~(c2s # <<>> /\ c2s' = Tail(c2s)) /\ c2s' # <<>>) =>
+        (conn' = "up" /\ c2s'[Len(c2s')].t = "bar")]_vars
+
+\* (6) no operation and no message makes the controller raise; a connected switch always has its entity
+NoExceptions == [][("exc" \in DOMAIN last'.exp) => last'.exp.exc = <<>>]_vars
+NoOrphan == conn # "orphan"
+
+\* ---- reachability witnesses (vacuity guard): TLC must REFUTE these
+WitnessSync == ~(conn = "up" /\ s2c # <<>> /\ Head(s2c).t = "brep" /\ Head(s2c).b \in DOMAIN bar2ops
+                 /\ Head(s2c).snap # {} /\ mirror # <<>> /\ budget.downs > 0)
+WitnessDrained == ~(Drained /\ pending = <<>> /\ want # {} /\ mirror # <<>> /\ budget.downs > 0 /\ budget.ops > 2)
 
 \* ---- export for the replay harness
 Bound   == Len(hist) <= D
